@@ -275,6 +275,68 @@ fn case_builder2<T: Elem>(case: u64, args: &Args, ev: &mut Ev) {
     }
 }
 
+/// long axes (512..1025 knots: the sizes at which a validation may start to work in blocks) with
+/// one tie / swapped pair / NaN / (-0.0, +0.0) tie; chunk `k` covers 64 consecutive (length,
+/// position) pairs, all chunks together every position of every length
+const LONG_LENS: [usize; 4] = [512, 513, 768, 1025];
+fn long_axis_chunks() -> u64 {
+    (LONG_LENS.iter().map(|n| n - 1).sum::<usize>() as u64 + 63) / 64
+}
+fn case_long_axis(case: u64, k: u64, ev: &mut Ev) {
+    let pairs: Vec<(usize, usize)> = LONG_LENS.iter().flat_map(|&n| (0..n - 1).map(move |p| (n, p))).collect();
+    for &(n, p) in pairs.iter().skip(k as usize * 64).take(64) {
+        for defect in 0..4 {
+            let mut a: Vec<f64> = (0..n).map(|i| i as f64 * 0.5 - 3.0).collect();
+            let dname = match defect {
+                0 => { a[p + 1] = a[p]; "tie" }
+                1 => { a.swap(p, p + 1); "swap" }
+                2 => { a[p] = f64::NAN; "nan" }
+                _ => {
+                    for (i, v) in a.iter_mut().enumerate() {
+                        *v = if i <= p { i as f64 - p as f64 } else { (i - p - 1) as f64 };
+                    }
+                    a[p] = -0.0;
+                    "negzero-tie"
+                }
+            };
+            let ax = Array1::from(a);
+            let two = Array1::from(vec![0.0f64, 1.0]);
+            for which in 0..3 {
+                let h = RecHandle::new();
+                let what = format!("Rec{}<2> axis {} of {n} knots, {dname} at {p}", if which == 0 { 1 } else { 2 }, ["x", "x", "y"][which]);
+                ev.add("long_axis_rows", 1);
+                ev.case(vh::rng::fnv(what.as_bytes()), true);
+                let (built, replay) = match which {
+                    0 => {
+                        let spec = Spec1::new(ArrayD::<f64>::zeros(IxDyn(&[n])), Some(ax.clone()), Strat1::Rec { min: 2, h: h.clone() });
+                        (build1(&spec, |r| match r { Ok(_) => Outcome::Ok(()), Err(o) => o }), J::obj().set("row", what.as_str()))
+                    }
+                    _ => {
+                        let (shape, x, y) = if which == 1 { ([n, 2], ax.clone(), two.clone()) } else { ([2, n], two.clone(), ax.clone()) };
+                        let spec = Spec2::new(ArrayD::<f64>::zeros(IxDyn(&shape)), Some(x), Some(y), Strat2::Rec { min: 2, h: h.clone() });
+                        (build2(&spec, |r| match r { Ok(_) => Outcome::Ok(()), Err(o) => o }), J::obj().set("row", what.as_str()))
+                    }
+                };
+                let builds = h.lock().builds.clone();
+                if !check_build_rec::<f64>(ev, case, &what, &builds, 2, which != 0, &replay) {
+                    return;
+                }
+                match &built {
+                    Outcome::Panic(m) => {
+                        ev.violation("C18:builder-panicked", &format!("{what}: {m}"), case, replay.clone());
+                        return;
+                    }
+                    Outcome::Ok(()) => {
+                        ev.violation("C18:user-build-got-unvalidated-input", &format!("{what}: interpolator built over an axis that is not strictly increasing"), case, replay.clone());
+                        return;
+                    }
+                    _ => {}
+                }
+            }
+        }
+    }
+}
+
 fn multiset(mut v: Vec<u64>) -> Vec<u64> {
     v.sort_unstable();
     v
@@ -719,7 +781,13 @@ fn inj_msg(tag: &str, k: usize) -> String {
 fn main() {
     let args = Args::parse("C18");
     let n = args.budget(240, 30000);
-    let ev = run_sharded(&args, n, |case, ev, _log| {
+    let chunks = ((long_axis_chunks() as f64 * args.scale).ceil() as u64).clamp(1, long_axis_chunks());
+    let ev = run_sharded(&args, n + chunks, |case, ev, _log| {
+        if case >= n {
+            // spread the covered chunks over the whole range when the leg is scaled down
+            let k = (case - n) * long_axis_chunks() / chunks;
+            return case_long_axis(case, k, ev);
+        }
         let f32_ = case % 7 == 6;
         match (case % 4, f32_) {
             (0, _) => case_builder1::<f64>(case, &args, ev),
